@@ -88,7 +88,10 @@ def generate_source_code(docstring, parsed):
         refs = [Ref(x.name) for x in ignored]
 
         if super_has_ignore:
-            refs.append(Ref('_super_ctx._ignored'))
+            super_ignored = Ref('super._ignored')
+            super_ignored._resolved = '_super_ctx.' + ex.implementation_name('_ignored')
+            super_ignored.is_super = True
+            refs.append(super_ignored)
 
         rules.append(ex.Rule('_ignored', None, ex.Skip(*refs), 'ignored'))
 
